@@ -226,6 +226,16 @@ def tfOf (names : List String) : Tr → Bool := fun t => names.contains t.show
 
 def parseNames (s : String) : List String := if s = "-" ∨ s = "" then [] else s.splitOn ","
 
+/-- `nest=<id>`: interceptor `id` of the harness, when it sees an outer request, first issues a request of its own THROUGH THE
+    SAME SimpleHTTP (a token refresh, say) and then goes on.  The nested request is an ordinary request: it runs the whole chain
+    (the nesting interceptor does not nest again for it), so its call log appears right after the interceptor's own event. -/
+def withNested (nest : Option Nat) (outer : List Ev × Res) (nested : List Ev × Res) : List Ev × Res :=
+  match nest with
+  | none => outer
+  | some n => (outer.1.flatMap (fun e => match e with
+      | .icpt i _ => if i = n then e :: nested.1 else [e]
+      | _ => [e]), outer.2)
+
 structure Inst where
   s : SH        -- (its `interceptors` field is refreshed from the store before use)
   sl : Sl
@@ -261,6 +271,8 @@ def newInst (st : St) (c : Nat) (is : String) : St :=
   let (s, cs) := newSimpleHTTP st.cs c (readS store sl)
   { st with insts := st.insts ++ [⟨s, sl⟩], cs := cs, store := store }
 
+def parseNest (head : String) : Option Nat := (kv (head.splitOn " ") "nest").toNat?
+
 def initSt (head : String) : St × List Nat × List String :=
   let toks := head.splitOn " "
   let cs : Clients := ((kv toks "clients").splitOn ",").map parseTr
@@ -274,7 +286,7 @@ def initSt (head : String) : St × List Nat × List String :=
 
 def setInst (st : St) (j : Nat) (i : Inst) : St := { st with insts := st.insts.set j i }
 
-def runOpOn (fail : List Nat) (tfail : List String) (st : St) (j : Nat) (toks : List String) : St × String :=
+def runOpOn (nest : Option Nat) (fail : List Nat) (tfail : List String) (st : St) (j : Nat) (toks : List String) : St × String :=
   match st.insts[j]? with
   | none => (st, "noinst")
   | some i =>
@@ -292,25 +304,28 @@ def runOpOn (fail : List Nat) (tfail : List String) (st : St) (j : Nat) (toks : 
       -- the usual way to change the underlying transport: c := GetHTTPClient(); c.Transport = t; SetHTTPClient(c)
       let (s, cs) := setHTTPClient (i.sh st) (st.cs.set i.s.client (parseTr t)) i.s.client
       ({ setInst st j { i with s := s } with cs := cs }, "nil")
-    | ["req", _verb] => (st, showResult (clientDo (behOf fail) (tfOf tfail) (i.sh st) st.cs []))
+    | ["req", _verb] =>
+      -- (the verb — also CANCELLED / EXPIRED: a request whose context is already done — makes no difference to the chain)
+      let one := clientDo (behOf fail) (tfOf tfail) (i.sh st) st.cs []
+      (st, showResult (withNested nest one one))
     | _ => (st, "bad-op")
 
-def runOp (fail : List Nat) (tfail : List String) (st : St) (op : String) : St × String :=
+def runOp (nest : Option Nat) (fail : List Nat) (tfail : List String) (st : St) (op : String) : St × String :=
   match (op.splitOn " ").filter (· ≠ "") with
   | ["inst", c, is] => (newInst st (clientIdx c) is, "nil")
   | ["instd"] | ["insta"] =>
     -- NewSimpleHTTP(): NewSimpleHTTPWithClientAndInterceptors(&http.Client{}) — a fresh client, no interceptors
     (newInst { st with cs := st.cs ++ [none] } st.cs.length "-", "nil")
   | t :: rest =>
-    if t.startsWith "@" then runOpOn fail tfail st ((t.drop 1).toString.toNat?.getD 0) rest
-    else runOpOn fail tfail st 0 (t :: rest)
+    if t.startsWith "@" then runOpOn nest fail tfail st ((t.drop 1).toString.toNat?.getD 0) rest
+    else runOpOn nest fail tfail st 0 (t :: rest)
   | [] => (st, "bad-op")
 
 def handle (line : String) : String :=
   let (head, ops) := splitCase line
   let (st0, fail, tfail) := initSt head
   let (_, outs) := ops.foldl (fun (acc : St × List String) op =>
-    let (st, o) := runOp fail tfail acc.1 op
+    let (st, o) := runOp (parseNest head) fail tfail acc.1 op
     (st, o :: acc.2)) (st0, [])
   " | ".intercalate outs.reverse
 
@@ -319,8 +334,10 @@ def handle (line : String) : String :=
     list only; WHICH underlying transport finally receives the request is not part of the property, so any single transport
     event with the right request is accepted. -/
 
-def specEvents (fail : List Nat) (is : List Nat) : List String × String :=
-  let r := Spec.visit (behOf fail) (fun _ => false) .dflt is []
+def specEvents (nest : Option Nat) (fail : List Nat) (is : List Nat) : List String × String :=
+  let one := Spec.visit (behOf fail) (fun _ => false) .dflt is []
+  -- an overlapping (nested) request through the same instance is a request like any other: full chain, once
+  let r := withNested nest one one
   (r.1.map (fun e => match e with
     | .icpt .. => e.show
     | .transport _ req => ":" ++ showTrace req), r.2.show)
@@ -376,7 +393,7 @@ def judge (line impl : String) : String :=
       | ["set", _] => upd l
       | ["retr", _] => upd l
       | ["req", _] =>
-        let exp := specEvents fail l
+        let exp := specEvents (parseNest head) fail l
         if obsMatches tfail exp oo.2 then acc
         else (acc.1, acc.2 ++ [s!"op '{oo.1}' on instance {j} with registered interceptors {l}: observed '{oo.2}', property demands '{" ".intercalate (exp.1 ++ [exp.2])}' (':trace' = any one transport)"])
       | _ => acc) ([is0], [])
